@@ -478,6 +478,8 @@ def u_lowerbound_mgs():
             me.w_max = Sym(z3.Int("w_max"))
             me._get_source_flow = lambda: Sym(z3.Int("source_flow"))
             me._get_partition_constraints_for_min_gen_set = lambda **kw: None
+            me.edges_to_ignore = SymSeq.fresh("edges_to_ignore", SInt)          # the bound is skipped when something is ignored
+            n_ign = me.edges_to_ignore.n
 
             class Edges:
                 def __call__(self):
@@ -494,9 +496,9 @@ def u_lowerbound_mgs():
             except SystemExit:
                 c.prove("xpost:never-terminates-the-process(exit)", False, prop=P, kind="xpost")
                 return
-            c.prove("post:returns-the-size-iff-solved-else-None", (r is None) if not isinstance(r, Sym) else solved.t, prop=P)
+            c.prove("post:returns-the-size-iff-solved-else-None", (r is None) if not isinstance(r, Sym) else z3.And(solved.t, n_ign == 0), prop=P)
             if r is None:
-                c.prove("post:None=>mingenset-was-not-solved", z3.Not(solved.t), prop=P)
+                c.prove("post:None=>mingenset-was-not-solved-or-edges-are-ignored", z3.Or(z3.Not(solved.t), n_ign > 0), prop=P)
         class MGS(Tracked):
             def __init__(self, **kw):
                 self.solve_statistics = {}
